@@ -808,7 +808,7 @@ func c04Recv(c *Ctx, allocSafe bool) {
 		// several gaps inside one frame, EACH below T8 but together beyond it, within one read phase (all cuts in the
 		// length prefix, or all in header+body): T8 is an inter-byte-group timer re-armed before every read, so the frame
 		// must come through (after seeded change C04e-1: a deadline pushed only when less than T8/2 was left)
-		for _, gp := range [][2]int{{35, 80}, {45, 70}} {
+		for _, gp := range [][2]int{{35, 80}, {45, 70}, {15, 92}, {20, 88}} { // the last two: a first gap too short to matter to a coalescing re-arm (after seeded change C04f-2)
 			g1, g2 := c04T8Ns*gp[0]/100, c04T8Ns*gp[1]/100
 			scen = append(scen, &c04Scenario{tag: "near-T8-gaps-prefix", segs: []c04Seg{{0, b[:1]}, {g1, b[1:2]}, {g2, b[2:]}}, wantFrames: two, wantDrop: "eof", timed: true})
 			scen = append(scen, &c04Scenario{tag: "near-T8-gaps-body", segs: []c04Seg{{0, b[:6]}, {g1, b[6:9]}, {g2, b[9:]}}, wantFrames: two, wantDrop: "eof", timed: true})
